@@ -5,7 +5,7 @@ import modeb
 SPEC = {
     "uses_gen": ["Crypto"],
     "cmd": "c14",
-    "budget": (150, 3000),
+    "budget": (120, 3000),
     "model_vos": ["Model/Secp.vo", "Model/SigAccept.vo"],
     "trusted_base": [
         "kernel vm_compute is trusted for two closed computations (smulx n G = Inf; acceptance of the F12 witness); coqchk is not run on this property because it has no VM",
